@@ -125,6 +125,11 @@ func (i *rwInterceptor) Write(b []byte) (int, error) {
 	if !i.wroteHeader {
 		// if no header has been wrote at this point we aim to return 200
 		i.WriteHeader(http.StatusOK)
+		if i.tx.IsInterrupted() {
+			// the implicit WriteHeader ran the response headers phase and it
+			// interrupted the transaction: none of the body may go out
+			return len(b), nil
+		}
 	}
 
 	if i.tx.IsResponseBodyAccessible() && i.tx.IsResponseBodyProcessable() && !i.wroteBufferedBodyToDownstream {
